@@ -189,12 +189,14 @@ structure TableOK (ops : List Op) : Prop where
   blank : ∀ c, isScanSpace c = true → startsOp ops c = false
   /-- the only operator symbol starting with `-` is `-` itself (the one the exponent hack of `Operator.match` hides) -/
   minus : ∀ o ∈ ops, o.sym.head? = some 45 → o.sym = MINUS
+  /-- … and the only one starting with `+` is `+` -/
+  plus : ∀ o ∈ ops, o.sym.head? = some 43 → o.sym = PLUS
 
 /-- every byte of the operand starts no operator symbol, or it is the `-` of an exponent (`1.2e-2`: preceded, inside
     the operand, by a digit and `e`); `pre` = the bytes of the operand before the position, reversed -/
 def atomScan (ops : List Op) : Bytes → Bytes → Bool
   | _, [] => true
-  | pre, c :: t => (!startsOp ops c || (c == 45 && expHack pre)) && atomScan ops (c :: pre) t
+  | pre, c :: t => (!startsOp ops c || ((c == 45 || c == 43) && expHack pre)) && atomScan ops (c :: pre) t
 
 /-- bytes an operand may consist of: printable ASCII that starts no operator symbol (except the `-` of an exponent),
     not ending in the digit·`e` of an unfinished exponent literal (`2e`, `1.5e` — a following `-` would be taken for
@@ -214,7 +216,7 @@ theorem atomOK_plain (ops : List Op) (x : Bytes) (h1 : x ≠ []) (h2 : ∀ c ∈
   ⟨h1, fun c hc => ⟨(h2 c hc).1, (h2 c hc).2.1⟩, atomScan_plain ops x (fun c hc => (h2 c hc).2.2) [], h3⟩
 
 theorem atomScan_mem (ops : List Op) (x pre : Bytes) (h : atomScan ops pre x = true) :
-    ∀ c ∈ x, startsOp ops c = false ∨ c = 45 := by
+    ∀ c ∈ x, startsOp ops c = false ∨ (c = 45 ∨ c = 43) := by
   induction x generalizing pre with
   | nil => simp
   | cons c t ih =>
@@ -263,51 +265,61 @@ theorem endsNumeric_append_false (p q : Bytes) (h : endsNumeric p = false) : end
     · rename_i hd; simp only [hd, if_true] at h; exact ih h
     · rename_i hd; simpa [hd] using h
 
+theorem expHack_cons2 (c d : Nat) (t : Bytes) :
+    expHack (c :: d :: t) = ((c == 101 || c == 69) && isDigit d && endsNumeric (d :: t)) := rfl
+
 theorem expHack_append (p q : Bytes) (h : expHack p = true) (hq : StopPre q) : expHack (p ++ q) = true := by
   match p, h with
-  | 101 :: d :: r, h =>
-    simp only [expHack, Bool.and_eq_true] at h
+  | c :: d :: r, h =>
+    rw [expHack_cons2] at h
+    simp only [Bool.and_eq_true] at h
     have := endsNumeric_append (d :: r) q h.2 hq
-    simp only [List.cons_append] at this
-    simp [expHack, h.1, this]
+    simp only [List.cons_append] at this ⊢
+    rw [expHack_cons2]
+    simp [h.1.1, h.1.2, this]
+  | [c], h => simp [expHack] at h
+  | [], h => simp [expHack] at h
 
-/-- an operand that does not end in an unfinished exponent keeps a following `-` an operator, whatever precedes it -/
+/-- an operand that does not end in an unfinished exponent keeps a following sign an operator, whatever precedes it -/
 theorem expHack_append_false (p q : Bytes) (h : expHack p = false) (hp : p ≠ []) (hq : StopPre q) :
     expHack (p ++ q) = false := by
   match p, h, hp with
-  | [c], h, _ =>
+  | [c], _, _ =>
     cases q with
     | nil => simp [expHack]
     | cons d t =>
       have := hq d rfl
       simp only [stopByte, Bool.and_eq_true, Bool.not_eq_true', Bool.or_eq_false_iff] at this
-      by_cases hc : c = 101
-      · subst hc; simp [expHack, this.1.1]
-      · simp only [List.cons_append, List.nil_append]
-        unfold expHack
-        split
-        · rename_i heq; simp at heq; exact absurd heq.1 hc
-        · rfl
+      simp only [List.cons_append, List.nil_append]
+      rw [expHack_cons2]
+      simp [this.1.1]
   | c :: d :: r, h, _ =>
-    by_cases hc : c = 101
-    · subst hc
-      simp only [expHack, Bool.and_eq_false_iff] at h
-      rcases h with h | h
-      · simp [expHack, h]
-      · have := endsNumeric_append_false (d :: r) q h
-        simp only [List.cons_append] at this
-        simp [expHack, this]
-    · simp only [List.cons_append]
-      unfold expHack
-      split
-      · rename_i heq; simp at heq; exact absurd heq.1 hc
-      · rfl
+    rw [expHack_cons2] at h
+    simp only [List.cons_append]
+    rw [expHack_cons2]
+    cases hcd : ((c == 101 || c == 69) && isDigit d) with
+    | false => simp [hcd]
+    | true =>
+      simp only [hcd, Bool.true_and] at h
+      have := endsNumeric_append_false (d :: r) q h
+      simp only [List.cons_append] at this
+      simp [hcd, this]
 
 theorem stopPre_hack (pre : Bytes) (h : StopPre pre) : expHack pre = false := by
-  unfold expHack
-  split
-  · have := h 101 rfl; simp [stopByte, isNameByte, isDigit] at this
-  · rfl
+  match pre, h with
+  | [], _ => rfl
+  | [c], _ => rfl
+  | c :: d :: t, h =>
+    rw [expHack_cons2]
+    have := h c rfl
+    simp only [stopByte, Bool.and_eq_true, Bool.not_eq_true'] at this
+    have hc : (c == 101 || c == 69) = false := by
+      cases h1 : (c == 101 || c == 69) with
+      | false => rfl
+      | true =>
+        simp only [Bool.or_eq_true, beq_iff_eq] at h1
+        rcases h1 with h1 | h1 <;> subst h1 <;> simp [isNameByte] at this
+    simp [hc]
 
 theorem stopPre_blank (b p : Bytes) (hb : Blank b) (hp : StopPre p) : StopPre (b.reverse ++ p) := by
   cases hr : b.reverse with
@@ -330,38 +342,44 @@ theorem hack_blank (b p : Bytes) (hb : Blank b) (hp : expHack p = false) : expHa
     have hc : c ∈ b := by
       have : c ∈ b.reverse := by rw [hr]; simp
       simpa using this
-    have := hb c hc
-    unfold expHack
-    split
-    · rename_i heq
-      simp only [List.cons_append, List.cons.injEq] at heq
-      rw [heq.1] at this
-      simp [isScanSpace] at this
-    · rfl
+    have hsp := hb c hc
+    have hce : (c == 101 || c == 69) = false := by
+      simp only [isScanSpace, Bool.or_eq_true, beq_iff_eq] at hsp
+      rcases hsp with ((h | h) | h) | h <;> subst h <;> decide
+    cases htp : t ++ p with
+    | nil => simp only [List.cons_append, htp]; rfl
+    | cons d u =>
+      simp only [List.cons_append, htp]
+      rw [expHack_cons2]
+      simp [hce]
 
 /-- the exponent hack: after a digit and `e` no operator matches at a `-` -/
 theorem firstMatch_none_hack (ops : List Op) (hne : SymsNonempty ops)
-    (hM : ∀ o ∈ ops, o.sym.head? = some 45 → o.sym = MINUS) (pre t : Bytes) (h : expHack pre = true) :
-    firstMatch ops pre (45 :: t) = none := by
+    (hM : ∀ o ∈ ops, o.sym.head? = some 45 → o.sym = MINUS) (hP : ∀ o ∈ ops, o.sym.head? = some 43 → o.sym = PLUS)
+    (pre : Bytes) (c : Nat) (hc : c = 45 ∨ c = 43) (t : Bytes) (h : expHack pre = true) :
+    firstMatch ops pre (c :: t) = none := by
   unfold firstMatch
   rw [List.find?_eq_none]
   intro o ho hm
-  have hm' : o.matchAt pre (45 :: t) = true := by simpa using hm
-  have hp := matchAt_prefix o pre (45 :: t) hm'
+  have hm' : o.matchAt pre (c :: t) = true := by simpa using hm
+  have hp := matchAt_prefix o pre (c :: t) hm'
   have hs := hne o ho
   cases hsym : o.sym with
   | nil => exact hs hsym
   | cons a s =>
     rw [hsym] at hp
     simp [List.isPrefixOf] at hp
-    have h45 : o.sym = MINUS := hM o ho (by simp [hsym, hp.1])
     unfold Op.matchAt at hm'
-    simp [h45, h] at hm'
+    rcases hc with hc | hc
+    · have h45 : o.sym = MINUS := hM o ho (by simp [hsym, hp.1, hc])
+      simp [h45, h] at hm'
+    · have h43 : o.sym = PLUS := hP o ho (by simp [hsym, hp.1, hc])
+      simp [h43, h] at hm'
 
 /-- `nextOperator` passes over the bytes of an operand -/
 theorem nextOperator_skip_atom (ops : List Op) (hne : SymsNonempty ops)
-    (hM : ∀ o ∈ ops, o.sym.head? = some 45 → o.sym = MINUS) (x a : Bytes) (hx : atomScan ops a x = true)
-    (pre r : Bytes) (hstop : StopPre pre) :
+    (hM : ∀ o ∈ ops, o.sym.head? = some 45 → o.sym = MINUS) (hP : ∀ o ∈ ops, o.sym.head? = some 43 → o.sym = PLUS)
+    (x a : Bytes) (hx : atomScan ops a x = true) (pre r : Bytes) (hstop : StopPre pre) :
     nextOperator ops (a ++ pre) (x ++ r) =
       (match nextOperator ops (x.reverse ++ (a ++ pre)) r with
        | some (s, o, p, q) => some (x ++ s, o, p, q)
@@ -375,7 +393,7 @@ theorem nextOperator_skip_atom (ops : List Op) (hne : SymsNonempty ops)
     have hfm : firstMatch ops (a ++ pre) (c :: (t ++ r)) = none := by
       rcases hx.1 with h1 | h1
       · exact firstMatch_none ops hne _ c _ h1
-      · rw [h1.1]; exact firstMatch_none_hack ops hne hM _ _ (expHack_append a pre h1.2 hstop)
+      · exact firstMatch_none_hack ops hne hM hP _ c h1.1 _ (expHack_append a pre h1.2 hstop)
     simp only [List.cons_append, nextOperator, hfm]
     have := ih (c :: a) hx.2
     simp only [List.cons_append] at this
@@ -386,25 +404,17 @@ theorem nextOperator_skip_atom (ops : List Op) (hne : SymsNonempty ops)
     | some y => obtain ⟨a1, b1, c1, d1⟩ := y; rfl
 
 /-- the byte before the position is not `e` (so the exponent hack cannot apply) -/
-def NoE (pre : Bytes) : Prop := pre.head? ≠ some 101
+def NoE (pre : Bytes) : Prop := pre.head? ≠ some 101 ∧ pre.head? ≠ some 69
 
 theorem noE_hack (pre : Bytes) (h : NoE pre) : expHack pre = false := by
-  unfold expHack
-  split
-  · simp [NoE] at h
-  · rfl
-
-theorem noE_rev (s p : Bytes) (h : NoE p) (hs : s.getLast? ≠ some 101) : NoE (s.reverse ++ p) := by
-  cases s with
-  | nil => simpa using h
-  | cons a t =>
-    unfold NoE
-    have hh : ((a :: t).reverse ++ p).head? = (a :: t).getLast? := by
-      rw [List.head?_append, List.head?_reverse]
-      cases hg : (a :: t).getLast? with
-      | none => simp at hg
-      | some v => rfl
-    rw [hh]; exact hs
+  match pre, h with
+  | [], _ => rfl
+  | [c], _ => rfl
+  | c :: d :: t, h =>
+    rw [expHack_cons2]
+    have h1 : c ≠ 101 := fun e => h.1 (by simp [e])
+    have h2 : c ≠ 69 := fun e => h.2 (by simp [e])
+    simp [h1, h2]
 
 theorem blank_last (b : Bytes) (hb : Blank b) : b.getLast? ≠ some 101 := by
   intro h
@@ -453,7 +463,7 @@ theorem scan_atom (ops : List Op) (hT : TableOK ops) (x b2 : Bytes) (hx : AtomOK
       (match nextOperator ops (b2.reverse ++ (x.reverse ++ pre)) r with
        | some (s, o, p, q) => some (x ++ (b2 ++ s), o, p, q)
        | none => none) := by
-  have := nextOperator_skip_atom ops hT.ne hT.minus x [] hx.2.2.1 pre (b2 ++ r) hstop
+  have := nextOperator_skip_atom ops hT.ne hT.minus hT.plus x [] hx.2.2.1 pre (b2 ++ r) hstop
   simp only [List.nil_append] at this
   rw [this, nextOperator_skip ops hT.ne b2 (fun c hc => hT.blank c (hb2 c hc))]
   cases nextOperator ops (b2.reverse ++ (x.reverse ++ pre)) r with
